@@ -2,7 +2,7 @@
    Final statements only. *)
 From Coq Require Import List Arith Bool String ZArith Lia.
 From Verif Require Import C18.Lockset C18.Trace C18.Discipline C18.Publication C18.Accesses C18.Expected
-  C18.Model C18.Isolation C18.Selection C18.SelectionProofs.
+  C18.Model C18.Isolation C18.Selection C18.SelectionProofs C18.GetOrCreate C18.GetOrCreateProofs.
 Import ListNotations.
 Local Open Scope list_scope.
 
@@ -397,4 +397,60 @@ Example C18_package_variable_unprotected_is_reported :
   (* the same access under a mutex held by every transaction is not reported *)
   racy_fields2 multi_roles generation_fields consumer_roles
     [mkFact "streams/config.(var).sampleSource" Wr "txn" ["streams/config.sampleMu"%string] []] = [].
+Proof. repeat split; vm_compute; reflexivity. Qed.
+
+(* ================================================================== *)
+(* 3c. Get-or-create of a keyed object (quota group per header value, allow mark
+   per request, expire watcher per type, limiter state per group, ...). Not a data
+   race: every map access is locked. What can go wrong is the check-then-act
+   split - look-up, unlock, build, lock, store without re-check - after which two
+   goroutines that are both the first of a key each hold an object of their own
+   (seeded change C18-12: the transaction whose object was replaced loses its
+   allow mark and is refused below the limit).
+
+   (i) the source: every site the translator discovers on the CURRENT tree
+   (regenerated every run; lockset/getorcreate.go) keeps the look-up that decides
+   and the store inside ONE continuous hold of the map's lock, and the recorded
+   sites are among the discovered ones. *)
+Theorem C18_tree_get_or_create_one_hold :
+  atomic_ok get_or_create_report = true /\
+  forallb (fun c => existsb (fun p => String.eqb (fst p) c) get_or_create_report)
+          expected_get_or_create_sites = true /\
+  expected_get_or_create_sites <> [].
+Proof. split; [vm_compute; reflexivity | split; [vm_compute; reflexivity | discriminate]]. Qed.
+Print Assumptions C18_tree_get_or_create_one_hold.
+
+(* (ii) what one hold buys, for every schedule of calls (goroutine, key): the run
+   IS a one-at-a-time run of get-or-create (linearizable with the call itself as
+   linearization point), hence all calls on a key return the same object - a
+   transaction's second call (Allowed) finds the object its first call (Inc) left
+   its mark on -, it is the object the map holds afterwards, and calls on
+   different keys never share an object. *)
+Theorem C18_get_or_create_one_hold_linearizable : forall sched,
+  grun false sched = fold_left (fun s c => get_or_create s (fst c) (snd c)) sched ginit /\
+  agree (g_log (grun false sched)) /\ in_map (grun false sched) /\ separate (g_log (grun false sched)).
+Proof.
+  intro sched. split; [apply one_hold_is_serial | split; [apply one_hold_agree | split; [apply one_hold_in_map | apply one_hold_separate]]].
+Qed.
+Print Assumptions C18_get_or_create_one_hold_linearizable.
+
+(* (iii) the full statement over both variants is refuted by the seeded behaviour:
+   two goroutines, both the first of key 7, look-up, look-up, store, store. *)
+Definition C18_get_or_create_full : Prop :=
+  forall (split : bool) (sched : list (Z * Z)), agree (g_log (grun split sched)).
+
+Theorem C18_get_or_create_full_refuted : ~ C18_get_or_create_full.
+Proof. intro H. exact (split_not_agree (H true goc_witness)). Qed.
+Print Assumptions C18_get_or_create_full_refuted.
+
+(* the strongest true statement; the side condition is what (i) computes from the source *)
+Theorem C18_get_or_create_holds_outside_split : forall split sched,
+  split = false -> agree (g_log (grun split sched)).
+Proof. intros split sched ->. apply one_hold_agree. Qed.
+Print Assumptions C18_get_or_create_holds_outside_split.
+
+Example C18_get_or_create_nontrivial :
+  g_log (grun false goc_witness) = [(2, 7, 0); (1, 7, 0); (2, 7, 0); (1, 7, 0)]%Z /\
+  g_log (grun false [(1, 7); (2, 8); (1, 8); (2, 7)]%Z) = [(2, 7, 0); (1, 8, 1); (2, 8, 1); (1, 7, 0)]%Z /\
+  g_log (grun true goc_witness) = [(2, 7, 1); (1, 7, 0)]%Z.
 Proof. repeat split; vm_compute; reflexivity. Qed.
